@@ -425,6 +425,17 @@ def d5(chk, prog):
         model.ext["np.minimum.accumulate"] = accumulate
         model.ext["np.minimum"] = lambda it, a, b: estyping.Arr(min(num_(a), num_(x)) for x in b.v) if isinstance(b, estyping.Arr) else estyping.Arr(min(num_(x), num_(b)) for x in a.v)
         model.builtins["float"] = lambda x: Fr(x) if isinstance(x, int) else x
+
+        def rankdata(it, a, method="average", **k):
+            vals = [num_(x) for x in a.v]
+            lo = [1 + sum(1 for y in vals if y < x) for x in vals]
+            hi = [sum(1 for y in vals if y <= x) for x in vals]
+            pick = {"average": lambda l, h: Fr(l + h, 2), "min": lambda l, h: Fr(l), "max": lambda l, h: Fr(h)}.get(method)
+            if pick is None:
+                raise Undecided(f"rankdata(method={method!r})")
+            return estyping.Arr(pick(l, h) for l, h in zip(lo, hi))
+        model.ext["scipy.stats.rankdata"] = rankdata
+        model.ext["np.empty_like"] = lambda it, a, **k: estyping.Arr([None] * len(a.v))
         it = Interp(prog, model)
         out = tb3.guard(lambda: it.run(fp.qn, [estyping.Arr(list(ps))]), f"p={[str(x) for x in ps]}")
         if out is None:
@@ -466,6 +477,8 @@ def run(chk):
 _S = "cnvlib/segmetrics.py"
 _B = "cnvlib/bintest.py"
 MUTANTS = [
+    dict(name="seeded C17e: BH steps from average ranks", edits=[(_B, '    by_descend = p.argsort()[::-1]\n    by_orig = by_descend.argsort()\n    steps = float(len(p)) / np.arange(len(p), 0, -1)\n    q = np.minimum(1, np.minimum.accumulate(steps * p[by_descend]))\n    return q[by_orig]\n', '    steps = float(len(p)) / rankdata(p)\n    by_descend = p.argsort()[::-1]\n    q = np.empty_like(p)\n    q[by_descend] = np.minimum.accumulate((steps * p)[by_descend])\n    return np.minimum(1, q)\n'), (_B, 'from scipy.stats import norm\n', 'from scipy.stats import norm, rankdata\n')]),
+    dict(name="twin: BH steps from maximum ranks", expect="silent", edits=[(_B, '    by_descend = p.argsort()[::-1]\n    by_orig = by_descend.argsort()\n    steps = float(len(p)) / np.arange(len(p), 0, -1)\n    q = np.minimum(1, np.minimum.accumulate(steps * p[by_descend]))\n    return q[by_orig]\n', '    steps = float(len(p)) / rankdata(p, method="max")\n    by_descend = p.argsort()[::-1]\n    q = np.empty_like(p)\n    q[by_descend] = np.minimum.accumulate((steps * p)[by_descend])\n    return np.minimum(1, q)\n'), (_B, 'from scipy.stats import norm\n', 'from scipy.stats import norm, rankdata\n')]),
     dict(name="seeded C17d: interval statistics drop zero-weight bins", file="cnvlib/segmetrics.py", old="            out_vals_lo[i], out_vals_hi[i] = func(ser.values, wt.values)\n", new="            informative = wt.values > 0\n            if informative.any():\n                out_vals_lo[i], out_vals_hi[i] = func(ser.values[informative], wt.values[informative])\n"),
     dict(name="spread statistic fed raw log2", file=_S, old="        deviations = (bl - sl for bl, sl in zip(bins_log2s, segarr[\"log2\"]))", new="        deviations = (bl for bl, sl in zip(bins_log2s, segarr[\"log2\"]))"),
     dict(name="outer -> inner", file=_S, old='    bins_log2s = list(cnarr.iter_ranges_of(segarr, "log2", "outer", True))', new='    bins_log2s = list(cnarr.iter_ranges_of(segarr, "log2", "inner", True))'),
